@@ -595,26 +595,66 @@ func oracle(cs *Case, out *MProg, fail func(class, what string, expected, observ
 				}
 			}
 		}
-		for _, s := range p.Files[0].Services {
-			for _, fn := range s.Fns {
-				for _, l := range lits {
-					if l == s.Name+"."+fn.Name {
+		// a method named exactly through a root service (its own or an inherited one) remains, and
+		// the extends chain from the root service to the service that declares it stays intact
+		findOut := func(fi int, name string) *MSvc {
+			of := outFile[fi]
+			if of == nil {
+				return nil
+			}
+			for i := range of.Services {
+				if of.Services[i].Name == name {
+					return &of.Services[i]
+				}
+			}
+			return nil
+		}
+		for _, rs := range p.Files[0].Services {
+			cur, cf := rs, 0
+			var path []sk
+			for depth := 0; depth < 50; depth++ {
+				path = append(path, sk{cf, cur.Name})
+				for _, fn := range cur.Fns {
+					for _, l := range lits {
+						if l != rs.Name+"."+fn.Name {
+							continue
+						}
+						os := findOut(cf, cur.Name)
 						found := false
-						for _, os := range root.Services {
-							if os.Name == s.Name {
-								for _, ofn := range os.Fns {
-									if ofn.Name == fn.Name {
-										found = true
-									}
+						if os != nil {
+							for _, ofn := range os.Fns {
+								if ofn.Name == fn.Name {
+									found = true
 								}
 							}
 						}
 						if !found {
-							fail("named-method-removed", fmt.Sprintf("-m %s: the method is gone", l), "kept", "missing")
+							fail("named-method-removed", fmt.Sprintf("-m %s: the method %s.%s is gone", l, cur.Name, fn.Name), "kept", "missing")
 							return
+						}
+						for k := 0; k+1 < len(path); k++ {
+							link := findOut(path[k].f, path[k].n)
+							if link == nil || link.Ext == "" {
+								fail("named-method-chain-cut", fmt.Sprintf("-m %s: %s no longer inherits %s.%s (extends of %s cut)", l, rs.Name, cur.Name, fn.Name, path[k].n), "extends kept", "cut")
+								return
+							}
 						}
 					}
 				}
+				if cur.ExtFile < 0 {
+					break
+				}
+				nf := cur.ExtFile
+				var nx *SvcD
+				for i := range p.Files[nf].Services {
+					if p.Files[nf].Services[i].Name == cur.ExtName {
+						nx = &p.Files[nf].Services[i]
+					}
+				}
+				if nx == nil {
+					break
+				}
+				cur, cf = *nx, nf
 			}
 		}
 	}
@@ -771,6 +811,7 @@ func run(repo, dir string, seed uint64, tier, trimmerBin, thriftgoBin string) er
 		n = 5000
 	}
 	perClass := map[string][]vl.OracleFail{}
+	var classOrder []string
 	// the corpus of past failures and seeded shapes runs first
 	for _, cc := range corpus() {
 		cs := cc.c.clone()
@@ -780,12 +821,17 @@ func run(repo, dir string, seed uint64, tier, trimmerBin, thriftgoBin string) er
 			out.Case(res.op, res.impl, true)
 		}
 		for j, f := range res.fails {
-			out.Count("oracle-fail:" + res.classes[j])
-			out.Fail(f)
+			cl := res.classes[j]
+			out.Count("oracle-fail:" + cl)
+			if len(perClass[cl]) < 2 {
+				perClass[cl] = append(perClass[cl], f)
+				if len(perClass[cl]) == 1 {
+					classOrder = append(classOrder, cl)
+				}
+			}
 		}
 	}
 	attempts := map[string]int{}
-	var classOrder []string
 	var progs []*ProgD
 	for i := 0; i < n; i++ {
 		p := genProg(r)
